@@ -5,6 +5,7 @@ pub mod c03;
 pub mod c05;
 pub mod c06;
 pub mod c07;
+pub mod c12;
 pub mod c13;
 pub mod c14;
 pub mod c15;
@@ -22,6 +23,7 @@ pub fn run(id: &str, ctx: &Ctx) -> Report {
         "C07" => c07::run(ctx),
         "C17" => c17::run(ctx),
         "C19" => c19::run(ctx),
+        "C12" => c12::run(ctx),
         "C13" => c13::run(ctx),
         "C14" => c14::run(ctx),
         "C15" => c15::run(ctx),
